@@ -29,11 +29,13 @@ HEADER = "From Coq Require Import List. Import ListNotations.\nFrom Yaqs Require
 def gen_gates(rng, n, m):
     instrs = []
     for i in range(m):
+        # degenerate angles are legal: a rotation by exactly 0 (a switched-off coupling of a Trotter layer) is still a gate of the circuit
+        ang = 0.0 if rng.random() < 0.2 else 0.3 + 0.1 * i
         if rng.random() < 0.4:
-            instrs.append((i, "G1", [int(rng.integers(0, n))], str(rng.choice(["rx", "ry", "h"])), 0.3 + 0.1 * i))
+            instrs.append((i, "G1", [int(rng.integers(0, n))], str(rng.choice(["rx", "ry", "h"])), ang))
         else:
             q = int(rng.integers(0, n - 1))
-            instrs.append((i, "G2", [q, q + 1] if rng.random() < 0.5 else [q + 1, q], str(rng.choice(["cx", "rzz", "rxx"])), 0.3 + 0.1 * i))
+            instrs.append((i, "G2", [q, q + 1] if rng.random() < 0.5 else [q + 1, q], str(rng.choice(["cx", "rzz", "rxx"])), ang))
     return instrs
 
 
@@ -243,6 +245,9 @@ FIXED = [
     dict(n=3, instrs=[(0, "G2", [1, 2], "rxx", 0.8), (1, "G1", [0], "rx", 0.5), (2, "G2", [1, 0], "cx", 0.1)],
          procs=[{"name": "pauli_x", "sites": [2], "strength": 0.06}, {"name": "lowering_two", "sites": [0, 1], "strength": 0.08},
                 {"name": "pauli_y", "sites": [0], "strength": 0.03}]),
+    # a two-qubit rotation by exactly zero between two others: it is a gate, the noise of its qubits follows it
+    dict(n=3, instrs=[(0, "G1", [0], "h", 0.1), (1, "G1", [1], "ry", 0.7), (2, "G2", [0, 1], "cx", 0.1), (3, "G2", [1, 2], "rzz", 0.0), (4, "G2", [1, 2], "rxx", 0.7)],
+         procs=[{"name": "pauli_x", "sites": [1], "strength": 0.05}, {"name": "lowering", "sites": [2], "strength": 0.06}, {"name": "pauli_z", "sites": [0], "strength": 0.03}]),
     # a switched-off process listed ahead of live ones, and one in the middle of the list
     dict(n=3, instrs=[(0, "G1", [0], "h", 0.1), (1, "G1", [1], "ry", 0.7), (2, "G2", [0, 1], "cx", 0.1), (3, "G2", [1, 2], "rzz", 0.6)],
          procs=[{"name": "pauli_x", "sites": [0], "strength": 0.0}, {"name": "pauli_z", "sites": [1], "strength": 0.05},
